@@ -94,6 +94,8 @@ func hashMetric(metric labels.Labels, without bool, grouping []string, buf []byt
 	if without {
 		lb := labels.NewBuilder(metric)
 		lb.Del(grouping...)
+		// The metric name is never part of the result of an aggregation.
+		lb.Del(labels.MetricName)
 		key, bytes := metric.HashWithoutLabels(buf, grouping...)
 		return key, string(bytes), lb.Labels(nil)
 	}
